@@ -25,11 +25,14 @@ TRUSTED = ["Coq 8.16.1 kernel + vm_compute (primitive floats: bit-exact IEEE bin
            "libm pow enters the float model as the table of the calls made (python math.pow = the same libm); compared by tolerance 1e-12",
            "std Vec::sort_unstable(_by) modelled as an arbitrary sorted permutation (contract assumed, run as insertion sort)"]
 ASSUMPTIONS = ["Rust semantics of Vec/usize as modelled (checked indexing, debug overflow checks)",
+               "f64::powf(|x|, 2.0) inside norm_2 is modelled as |x|*|x| (libm's pow is not specified to be correctly rounded; model and implementation agreed bit for bit on every compared run, and a libm for which they differ breaks the tie, not a theorem)",
                "the sampled cases are where model and code were compared; the theorems are about the model"]
 UNPROVED = ["norm_p over R: non-negativity, homogeneity and norm_p = norm_1 / norm_2 at p = 1 / 2 are proved (pow on non-negative arguments as the real power function); "
             "Minkowski (triangle inequality) and inf <= p <= 1 for general p are searched only",
             "round two: dot_backward_error, sum_slice_backward_error, norm_1_relative_error (gamma_n), norm_2_relative_error (gamma_{n+1}) in the standard model, dot/sum/norm_1 also at binary64 via Flocq; the norm LAWS 'up to rounding' over f64 remain searched (1e-12 slack on data of moderate magnitude; proved over R only) and FAIL for entries whose square overflows/underflows (recorded finding f64-square-range)",
             "powspace / norm_p over f64 depend on libm pow: tied by tolerance (table of the calls) and searched; their theorems are over R with pow as the real power function",
+            "the norm laws are proved (Props/C15.v, over list R) and searched (normlaws cases) for REAL vectors; for Vector<Complex<f64>>::norm_inf (vec_cmplx.rs) and the generic "
+            "norm_1 on complex / rational vectors (through Signed::abs = (|z|, 0)) the VALUES are tied bit for bit and compared with an exact reference, but no law is proved or searched",
             "Vector::random: length and range [0,1) observed only"]
 
 MANIFEST = dict(
